@@ -550,6 +550,41 @@ pub fn main(args: &Args) {
         rep.absorb(tl);
     }
 
+    // Long histories: every cycle of one or two operations repeated up to lengths around the sizes
+    // at which small buffers and counters change regime (exhaustive over the cycles, not over all
+    // histories of that length)
+    {
+        use rayon::prelude::*;
+        let lens = [8usize, 9, 16, 17, 32, 33, 64, 65, 130];
+        let mut cycles: Vec<Vec<Op>> = OPS.iter().map(|a| vec![*a]).collect();
+        for a in OPS {
+            for b in OPS {
+                if a != b {
+                    cycles.push(vec![a, b]);
+                }
+            }
+        }
+        let tl = cycles
+            .par_iter()
+            .map(|cy| {
+                let mut t = Tally::default();
+                for n in lens {
+                    let mut h: Vec<Op> = (0..n).map(|i| cy[i % cy.len()]).collect();
+                    // a failed checkpoint ends a history: cut after the first one that fails
+                    if let Some(p) = (0..h.len()).find(|p| h[*p] == Op::Checkpoint && errs_before(&h[..=*p])) {
+                        h.truncate(p + 1);
+                    }
+                    check_history(&h, &mut t);
+                    t.states += 1;
+                    t.transitions += 1;
+                    t.nontrivial += 1;
+                }
+                t
+            })
+            .reduce(Tally::default, Tally::merge);
+        rep.set("long_histories", json!(tl.states));
+        rep.absorb(tl);
+    }
     // drop-during-unwind in a child process (a wrong implementation aborts the process)
     let child_depth = args.tier.pick(4usize, 5);
     unwind_sweep(&mut rep, child_depth);
@@ -557,7 +592,7 @@ pub fn main(args: &Args) {
     nodebug_drop_sweep(&mut rep, args.tier.pick(3usize, 4));
 
     rep.rule = format!(
-        "every history over {} accumulator operations up to length {} (stateright BFS, one state per history), each followed by every terminal operation (finish, finish_with, into_inner, drop, inspect) on a fresh replay of the real Accumulator, compared with a Vec reference; drop-during-unwind, and every finishing operation executed from a destructor during an unrelated unwind, for every history up to length {} in a child process; non-trivial = history that records at least one error",
+        "every history over {} accumulator operations up to length {} (stateright BFS, one state per history), each followed by every terminal operation (finish, finish_with, into_inner, drop, inspect) on a fresh replay of the real Accumulator, compared with a Vec reference; every 1- and 2-operation cycle repeated to lengths 8..130; drop-during-unwind, and every finishing operation executed from a destructor during an unrelated unwind, for every history up to length {} in a child process; non-trivial = history that records at least one error",
         OPS.len(), depth.max(deep), child_depth
     );
     rep.assumptions = vec!["Error Display text distinguishes the recorded errors (ids are embedded in the messages)".into(), "panic=unwind build".into()];
